@@ -47,9 +47,9 @@ type scoreModel struct {
 	entry    map[string]map[types.Object]Val // key -> locals at loop entry
 	keys     []string
 	// filled by the loop-nest and depth checks, consumed by checkInterp
-	rank   map[string]map[string]int          // metric -> effective value -> rank in the code's severity row
-	maxes  map[string]map[string][]map[string]string // EQ -> level -> decoded highest-severity vectors
-	depth1 map[string]map[string]*big.Rat     // EQ -> level -> depth+1
+	rank      map[string]map[string]int                 // metric -> effective value -> rank in the code's severity row
+	maxes     map[string]map[string][]map[string]string // EQ -> level -> decoded highest-severity vectors
+	depth1    map[string]map[string]*big.Rat            // EQ -> level -> depth+1
 	roundTree *Ex
 	roundFn   *ast.FuncDecl
 }
